@@ -3,6 +3,7 @@ NEXT Next
 INVARIANT EmitCase
 CHECK_DEADLOCK FALSE
 CONSTANTS
-  AllModeLen = 2
+  Rich = TRUE
+  AllModeLen = 3
   L = 4
   Schedules = {"each", "glue_next", "glue_both"}
